@@ -8,3 +8,17 @@ open SteelVerif.C01
 #print axioms eval_preserves_height
 #print axioms call_arity_exact
 #print axioms call_args_exact
+#print axioms SteelVerif.C01C.compile_correct_core
+#print axioms SteelVerif.C01C.compile_correct_core_in_context
+#print axioms SteelVerif.C01C.setbox_then_unbox
+#print axioms SteelVerif.C01C.closure_captures_by_reference
+#print axioms SteelVerif.C01C.call_args_exact_core
+#print axioms SteelVerif.C01C.apply_args_exact
+#print axioms SteelVerif.C01C.tail_call_constant_frames
+#print axioms SteelVerif.C01C.tail_call_stack_height
+#print axioms SteelVerif.C01C.tail_call_global_constant_frames
+#print axioms SteelVerif.C01C.dead_code_never_runs_core
+#print axioms SteelVerif.C01C.dead_code_never_runs_core'
+#print axioms SteelVerif.C01C.call_of_nonprocedure_is_error
+#print axioms SteelVerif.C01C.call_error_reported
+#print axioms SteelVerif.C01C.compile_correct_program
